@@ -229,6 +229,8 @@ def feature_matrix_spec():
                                   {"name": "n", "in": "path", "required": True, "schema": {"type": "integer"}},
                                   {"name": "q", "in": "query", "schema": {"type": "string"}},
                                   {"name": "tags", "in": "query", "explode": False, "schema": {"type": "array", "items": {"type": "string"}}},
+                                  {"name": "nums", "in": "query", "explode": False, "schema": {"type": "array", "items": {"type": "integer"}}},
+                                  {"name": "ratios", "in": "query", "style": "pipeDelimited", "schema": {"type": "array", "items": {"type": "number"}}},
                                   {"name": "sort", "in": "query", "schema": {"type": "string", "enum": ["asc", "desc"]}},
                                   {"name": "X-Trace", "in": "header", "required": True, "schema": {"type": "string"}},
                                   {"name": "X-Ids", "in": "header", "schema": {"type": "array", "items": {"type": "integer"}}}],
